@@ -46,6 +46,10 @@ class Response(Exception):
         return "%s %s" % (self.code, self.data)
 
 
+class PreparedContent(bytes):
+    """A command argument already formatted as a literal."""
+
+
 class Literal(Exception):
     def __init__(self, value):
         self.value = value
@@ -221,8 +225,9 @@ class Client:
     def __prepare_args(self, args: List[Any]) -> List[bytes]:
         """Format command arguments before sending them.
 
-        Command arguments of type string must be quoted, the only
-        exception concerns size indication (of the form {\d\+?}).
+        Command arguments of type string must be quoted (or sent as
+        literals when they can't be), the only exception concerns
+        content prepared by __prepare_content.
 
         :param args: list of arguments
         :return: a list for transformed arguments
@@ -230,9 +235,13 @@ class Client:
         ret = []
         for a in args:
             if isinstance(a, bytes):
-                if self.__size_expr.match(a):
+                if isinstance(a, PreparedContent):
                     ret += [a]
+                elif len(a) > 1024 or any(c in a for c in b"\r\n\0"):
+                    # can't be sent as a quoted string
+                    ret += [b"{%d+}%s%s" % (len(a), CRLF, a)]
                 else:
+                    a = a.replace(b"\\", b"\\\\").replace(b'"', b'\\"')
                     ret += [b'"' + a + b'"']
                 continue
             ret += [bytes(str(a).encode("utf-8"))]
@@ -248,7 +257,7 @@ class Client:
         :return: transformed script as bytes
         """
         bcontent: bytes = content.encode("utf-8")
-        return b"{%d+}%s%s" % (len(bcontent), CRLF, bcontent)
+        return PreparedContent(b"{%d+}%s%s" % (len(bcontent), CRLF, bcontent))
 
     def __send_command(
         self,
